@@ -71,6 +71,8 @@ func NewVoteDB(db youdb.Database, rawSk *ecdsa.PrivateKey) *VoteDB {
 		} else {
 			v.mark = make(map[VoteType]uint8)
 			v.mark[VoteType(vote.VoteType)] = 1
+			v.round = vote.Round
+			v.roundIndex = vote.RoundIndex
 		}
 	}
 
